@@ -266,17 +266,29 @@ def _cleanup(paths):
 
 
 def pipeline(tier, rep, calibrate=True, name="String"):
+    # self-test shortcuts (tools/str_mutants.py): the calibration does not depend on the tree under test, and one
+    # character type is enough to show that a seeded bug is noticed
+    calibrate = calibrate and not os.environ.get("VERIF_NOCALIB")
+    only = [t for t in os.environ.get("VERIF_TYPES", "").split(",") if t]
+    global TYPES
+    if only:
+        TYPES = tuple(t for t in TYPES if t in only)
+        rep.notes.append({"restricted_char_types": list(TYPES)})
     gen = model(tier, rep, name)
     groups, scripts = plan(gen, rep, tier, name)
     if tier == "quick":
         # every call on char; each of the other character types executes a quarter of the calls
         sel = {"char": (0, 1), "wchar_t": (0, 4), "char8_t": (1, 4), "char16_t": (2, 4), "char32_t": (3, 4)}
+        if only:
+            sel = {ty: (0, 1) for ty in TYPES}
         std_types = ("char", "char16_t")
         std_sel = {"char": (0, 1), "char16_t": (1, 3)}
     else:
         sel = {ty: (0, 1) for ty in TYPES}
         std_types = TYPES
         std_sel = sel
+    if not calibrate:
+        std_types = ()
     bins, not_drivable = build_drivers(tier, std_types)
     if calibrate:
         ctr, cst = execute(tier, groups, scripts, bins, "std", std_sel, std_types)
